@@ -196,6 +196,13 @@ func H_C08_big(k, fill int) {
 			in = append(in, 0)
 		case 1:
 			in = append(in, 'x')
+		case 3:
+			// a long line ending in a bare CR exactly where the run ends
+			if i == k-1 {
+				in = append(in, '\r')
+			} else {
+				in = append(in, 'x')
+			}
 		default:
 			if i%2 == 0 {
 				in = append(in, '\r')
@@ -214,6 +221,14 @@ func H_C08_big(k, fill int) {
 // with in-memory Parse exactly as H_C08.
 func H_C08_cut(t, _ int) {
 	in := tmplBytes(c01Templates[t])
+	c08Compare(in, &cutReader{data: cloneBytes(in), cut: vconcrete(nondetInt(0, len(in)))}, len(in), 0)
+}
+
+// H_C08_tl(t, _): member t of the shared template library delivered in two reads cut
+// at a solver-chosen position, compared with in-memory Parse (trees, positions and the
+// reference map, e.g. definitions inside containers).
+func H_C08_tl(t, _ int) {
+	in := tmplBytes(tlTemplates[t])
 	c08Compare(in, &cutReader{data: cloneBytes(in), cut: vconcrete(nondetInt(0, len(in)))}, len(in), 0)
 }
 
@@ -381,6 +396,9 @@ var c14Templates = []string{
 	"`a\n" + hA + "`\n",                     // 11: line ending inside a code span
 	"```" + hA + hA,                         // 12: fence opener with a two-byte info string at end of input
 	"a\n\n> ```" + hA + hA,                  // 13: the same inside a block quote
+	"[a]: b\n" + hA + hA,                    // 14: definition followed by a two-byte line (setext underline left over)
+	" ```\na\n\xffS",                        // 15: last line is only the indentation of an open fenced block
+	"> ~~~\n> a\n>\xffS",                     // 16: the same inside a block quote
 }
 
 var c14Pads = []string{"\n", " \n", "\r\n", "\t\n\n", "\r"}
